@@ -66,6 +66,18 @@ add(
     "DESIGN.md section 4, C07",
 )
 
+add(
+    "C14", "exploration",
+    "property-based testing (Hypothesis) against executable definitions + exhaustive sweeps ({A,C}* for poly-A/T, "
+    "{N,n,A}* for N handling, every phred table entry) + CLI slice",
+    "poly_a_trim_index (both directions), PolyATrimmer, NEndTrimmer, TooManyN, expected_errors and the two "
+    "expected-error predicates are compared with executable versions of the documented definitions on generated and "
+    "exhaustively enumerated inputs; a command-line slice applies --poly-a/--trim-n/--max-n/--max-ee to generated "
+    "single and paired files (poly-T head on R2) and compares the complete output.",
+    "Held on everything explored. Floating point: stated tolerance (1e-13 relative; 2e-15 for single table entries).",
+    "DESIGN.md section 4, C14",
+)
+
 NOT_APPLICABLE = []  # filled below for every property without a check
 
 ALL_IDS = [f"C{i:02d}" for i in range(1, 21)]
